@@ -3,7 +3,7 @@
 #  1. demo passes on a pristine worktree of /repo HEAD, 2. fails on the seeded worktree, 3. all files compile, 4. the baseline suite still passes on the seeded worktree
 set -u
 ID=$1; SUF=${2:-}
-WT=/tmp/seed_${ID}${SUF}
+WT=${WT_DIR:-/tmp/seed_${ID}${SUF}}
 PR=/tmp/confirm_pristine
 [ -d $PR ] || git -C /repo worktree add -q --detach $PR HEAD
 git -C $PR checkout -q --detach $(git -C /repo rev-parse HEAD) 2>/dev/null
